@@ -150,6 +150,10 @@ TextVal(s) == CASE s = "7"    -> P("n", "7")
                 [] s = "true" -> P("b", "true")
                 [] s = "null" -> Nil
                 [] s = "p,q"  -> N(<<>>, <<StrV("p"), StrV("q")>>)
+                \* a text is expanded ONCE: what looks like a reference in a parsed text is a literal, alone (OTHER) and as
+                \* the element of a list alike - in particular a resolver whose answer mentions its own name is no cycle
+                [] s = "${m},q"   -> N(<<>>, <<StrV("${m}"), StrV("q")>>)
+                [] s = "[${zz}]"  -> N(<<>>, <<StrV("${zz}")>>)
                 [] OTHER      -> StrV(s)
 
 \* the value a dyn leaf stands for: [ok |-> non-dyn value, o] / error   (cfgDynamic.getValue, followed
